@@ -36,4 +36,7 @@ def argmaxLt (x : Int) (l : List Int) : Int := (CR.argmaxLt x l : Nat)
 /-- Python `%` on integers with a non-zero divisor (sign of the divisor); `ZeroDivisionError` otherwise. -/
 def imod (a b : Int) : Res Int := if b = 0 then .error .zeroDiv else .ok (a.fmod b)
 
+/-- `is_natural_number(n)` on an integer argument (`is_integer_number(n) and n >= 0`, validity.py:39-45). -/
+def isNat (n : Int) : Bool := decide (0 ≤ n)
+
 end CR.Py
